@@ -6,7 +6,7 @@ be decoded to the origin column it belongs to."""
 import os
 import numpy as np
 
-from harness import fcsgen, tlc
+from harness import fcsgen, tlc, loadform
 import FlowCal.io
 
 STRIDE = 8
@@ -44,7 +44,7 @@ def write_base(R, C, tag='base', datatype='I', bits=16, values=None, **kw):
 
 
 def load_base(R, C, **kw):
-    return FlowCal.io.FCSData(write_base(R, C, **kw))
+    return FlowCal.io.FCSData(loadform.arg(write_base(R, C, **kw)))
 
 
 def decode_cell(v):
